@@ -1,4 +1,5 @@
 import Litestream.Model.V3
+import Litestream.Model.V3Name
 import Litestream.Driver.Util
 /-! Driver handlers for the legacy-restore model (C19).
 
@@ -45,6 +46,49 @@ def handleFmt (args : List (String × String)) : String :=
   | some (t, sn, sg), some la, some ls => if shouldUseV3 sn sg la ls t then "v3" else "ltx"
   | _, _, _ => "bad-op"
 
-def v3Handlers : Handlers := [("v3", handleV3), ("fmt", handleFmt)]
+/-! Names (`Model/V3Name.lean`); file names travel as hex of their bytes (a byte ≥ 128 becomes a
+non-hex character, which neither the model nor Go's byte-class regular expressions accept).
+
+`nparse K=snap|seg|gen HEX=<hex>`      -> `ok <index>` | `ok <index>:<offset>` | `none` | `gen 0|1`
+`nfmt K=snap I=<n>` / `nfmt K=seg I=<n> O=<n>`  -> the file name
+`nlist K=snap|seg N=<hex>,<hex>,…`     -> `<index>,…` | `<index>:<offset>,…`  (`-` when empty) -/
+
+def hexNib? (c : Char) : Option Nat :=
+  if '0' ≤ c ∧ c ≤ '9' then some (c.toNat - 48) else if 'a' ≤ c ∧ c ≤ 'f' then some (c.toNat - 87) else none
+
+def unhex? : List Char → Option (List Char)
+  | [] => some []
+  | [_] => none
+  | a :: b :: rest => do
+    let x ← hexNib? a
+    let y ← hexNib? b
+    let r ← unhex? rest
+    pure (Char.ofNat (x * 16 + y) :: r)
+
+def nameArg? (s : String) : Option (List Char) := unhex? s.toList
+
+def handleNParse (args : List (String × String)) : String :=
+  match arg? args "K", (arg? args "HEX").bind nameArg? with
+  | some "snap", some n => match V3Name.parseSnap n with | some i => s!"ok {i}" | none => "none"
+  | some "seg", some n => match V3Name.parseSeg n with | some (i, o) => s!"ok {i}:{o}" | none => "none"
+  | some "gen", some n => if V3Name.isGenID n then "gen 1" else "gen 0"
+  | _, _ => "bad-op"
+
+def handleNFmt (args : List (String × String)) : String :=
+  match arg? args "K", natArg? args "I", natArg? args "O" with
+  | some "snap", some i, _ => String.ofList (V3Name.fmtSnap i)
+  | some "seg", some i, some o => String.ofList (V3Name.fmtSeg i o)
+  | _, _, _ => "bad-op"
+
+def dashIfEmpty (s : String) : String := if s.isEmpty then "-" else s
+
+def handleNList (args : List (String × String)) : String :=
+  match arg? args "K", (arg? args "N").bind fun s => (splitList s ',').mapM nameArg? with
+  | some "snap", some ns => dashIfEmpty (",".intercalate ((V3Name.listSnaps ns).map toString))
+  | some "seg", some ns => dashIfEmpty (",".intercalate ((V3Name.listSegs ns).map fun p => s!"{p.1}:{p.2}"))
+  | _, _ => "bad-op"
+
+def v3Handlers : Handlers :=
+  [("v3", handleV3), ("fmt", handleFmt), ("nparse", handleNParse), ("nfmt", handleNFmt), ("nlist", handleNList)]
 
 end Litestream.Driver
